@@ -139,7 +139,7 @@ ASSUME_DEV = [
 
 def c01(pid, tier, replay):
     # key-emulating axes are keys too: their quiescence and their disconnect clean-up belong to C01
-    return device_check(pid, tier, replay, ["C01_"], keys_jobs(tier) + axis_jobs("akey", [["ABS_HAT0X"], ["ABS_RX"]], tier),
+    return device_check(pid, tier, replay, ["C01_"], keys_jobs(tier) + axis_jobs("akey", [["ABS_HAT0X"], ["ABS_RX"], ["ABS_GAS"]], tier),
                         drivers=[devdrivers.random_keys, devdrivers.c08_batches], assumptions=ASSUME_DEV)
 
 
@@ -227,7 +227,7 @@ def c07(pid, tier, replay):
 
 
 def c08(pid, tier, replay):
-    sets = [["ABS_HAT0X"], ["ABS_Z"], ["ABS_RX"], ["ABS_HAT0X", "ABS_RX"]]
+    sets = [["ABS_HAT0X"], ["ABS_Z"], ["ABS_RX"], ["ABS_GAS"], ["ABS_HAT0X", "ABS_RX"]]
     jobs = axis_jobs("akey", sets, tier, cfgmode="toml")
     def drv(seed, t):
         return with_toml(devdrivers.c08_batches(seed, t))
